@@ -4,15 +4,39 @@ Concrete Python values (int, bool, str, bytes, None, tuples, enum members,
 classes, real functions) stay what they are.  Everything that depends on a
 symbolic input is one of the wrappers below.
 
-bytes-like values are z3 sequences of *integers* (each element is known to be
-in 0..255: the fact is added to the path condition whenever an element is
-read), so struct packing/unpacking is plain integer arithmetic and no
-int<->bit-vector conversion is needed.
+bytes-like values are pairs (array Int -> Int, length) wrapped in a z3
+datatype `Bytes`; each element inside the length is known to be in 0..255 (the
+fact is added to the path condition whenever an element is read).
+Concatenation and slicing are lambda arrays, so every obligation about
+positions in buffers is linear integer arithmetic over array selects -- no
+sequence theory and no int<->bit-vector conversion.  Two byte strings are
+equal iff they have the same length and agree below it (`bytes_eq`); z3's own
+`==` on Bytes terms is never used for Python equality.
 """
 import z3
 
 INT, BOOL, BYTES, REAL = "int", "bool", "bytes", "real"
-BytesSort = z3.SeqSort(z3.IntSort())
+_B = z3.Datatype("Bytes")
+_B.declare("mkb", ("arr", z3.ArraySort(z3.IntSort(), z3.IntSort())),
+           ("len", z3.IntSort()))
+BytesSort = _B.create()
+ZERO_ARR = z3.K(z3.IntSort(), z3.IntVal(0))
+
+
+def mkb(arr, n):
+    return BytesSort.mkb(arr, n)
+
+
+def b_arr(t):
+    if z3.is_app(t) and t.decl().eq(BytesSort.mkb):
+        return t.arg(0)
+    return BytesSort.arr(t)
+
+
+def b_len(t):
+    if z3.is_app(t) and t.decl().eq(BytesSort.mkb):
+        return t.arg(1)
+    return BytesSort.len(t)
 
 
 class Sym:
@@ -248,10 +272,11 @@ def lift_bool(v):
 
 def lift_bytes(v):
     if isinstance(v, (bytes, bytearray)):
-        if len(v) == 0:
-            return z3.Empty(BytesSort)
-        units = [z3.Unit(z3.IntVal(b)) for b in v]
-        return units[0] if len(units) == 1 else z3.Concat(*units)
+        arr = ZERO_ARR
+        for i, b in enumerate(v):
+            if b:
+                arr = z3.Store(arr, i, b)
+        return mkb(arr, z3.IntVal(len(v)))
     if isinstance(v, Sym) and v.ty == BYTES:
         return v.t
     if isinstance(v, MutBytes):
@@ -296,28 +321,17 @@ def mk_bool(t):
 
 
 def mk_bytes(t):
-    """keep concrete byte strings concrete where that is cheap to see"""
-    s = z3.simplify(t)
-    vals = _concrete_seq(s)
-    if vals is not None:
-        return bytes(vals)
-    return Sym(s, BYTES)
-
-
-def _concrete_seq(s):
-    if z3.is_app_of(s, z3.Z3_OP_SEQ_EMPTY):
-        return []
-    if z3.is_app_of(s, z3.Z3_OP_SEQ_UNIT):
-        a = s.arg(0)
-        if z3.is_int_value(a) and 0 <= a.as_long() < 256:
-            return [a.as_long()]
-        return None
-    if z3.is_app_of(s, z3.Z3_OP_SEQ_CONCAT):
-        out = []
-        for i in range(s.num_args()):
-            r = _concrete_seq(s.arg(i))
-            if r is None:
-                return None
-            out += r
-        return out
-    return None
+    """keep short concrete byte strings concrete"""
+    n = concrete_int(b_len(t))
+    if n is not None and 0 <= n <= 64:
+        arr = b_arr(t)
+        vals = []
+        for i in range(n):
+            c = concrete_int(z3.Select(arr, i))
+            if c is None or not 0 <= c < 256:
+                vals = None
+                break
+            vals.append(c)
+        if vals is not None:
+            return bytes(vals)
+    return Sym(t, BYTES)
